@@ -1,196 +1,406 @@
-"""Hunt script for property C16 on the UNMODIFIED tree.
+"""Hunt round 3 for C16 (widening a target never loses wheels; compare() vs tag inclusion).
 
-Prints every new (not in the known families) violation found, with the concrete
-input, what the library answers, and what direct evaluation of both sides says.
+Run:  cd /tmp/wt/C16i && PYTHONPATH=/tmp/wt/C16i/src /venv/bin/python hunt_C16.py [N] [seed]
 
-Run: cd /tmp/wt/C16g && PYTHONPATH=/tmp/wt/C16g/src /venv/bin/python hunt_C16.py
+Everything is judged against an independent oracle:
+  * inclusion of requires_python ranges: packaging.SpecifierSet.contains over a grid of
+    final releases (alternatives of a `||` union are separate SpecifierSets);
+  * inclusion of platform tag sets: plain set inclusion of Platform.compatible_tags;
+  * compare(): the algebraic laws of the property statement.
+The script prints every violation it finds (and classifies those that belong to an
+already-known family), then a summary of the number of cases per area.
 """
+
 from __future__ import annotations
 
 import itertools
+import random
+import sys
 
-from dep_logic.tags import EnvSpec
-from dep_logic.tags.platform import Platform, PlatformError
+from packaging.specifiers import SpecifierSet
+from packaging.version import Version
+
+from dep_logic.specifiers import (
+    AnySpecifier,
+    RangeSpecifier,
+    UnionSpecifier,
+    from_specifierset,
+    parse_version_specifier,
+)
+from dep_logic.tags import EnvSpec, Implementation, Platform
+from dep_logic.tags.os import Macos, Manylinux, Musllinux, Windows
+from dep_logic.tags.platform import Arch
 from dep_logic.tags.tags import EnvCompatibility as EC
 
-found = 0
+N = int(sys.argv[1]) if len(sys.argv) > 1 else 20000
+SEED = int(sys.argv[2]) if len(sys.argv) > 2 else 16
+rnd = random.Random(SEED)
+
+# ---------------------------------------------------------------- version grid
+GRID = [
+    Version(f"{ma}.{mi}.{mc}")
+    for ma, mis in ((2, range(6, 8)), (3, range(0, 16)), (4, range(0, 2)))
+    for mi in mis
+    for mc in range(0, 5)
+]
+
+BOUNDS = ["2.7", "3", "3.0", "3.6", "3.8", "3.9", "3.9.0", "3.9.2", "3.10", "3.10.0",
+          "3.10.3", "3.11", "3.12", "3.13", "3.13.1", "4", "4.0", "3.9.0.0", "03.010"]
 
 
-def report(title: str, *lines: str) -> None:
-    global found
-    found += 1
-    print(f"[{found}] {title}")
-    for line in lines:
-        print("      " + line)
+def rnd_clause() -> str:
+    k = rnd.random()
+    v = rnd.choice(BOUNDS)
+    if k < 0.45:
+        return rnd.choice([">=", ">", "<", "<="]) + v
+    if k < 0.55:
+        return "==" + v
+    if k < 0.70:
+        pre = v.split(".")
+        return rnd.choice(["==", "!="]) + ".".join(pre[: rnd.randint(1, len(pre))]) + ".*"
+    if k < 0.80:
+        return "!=" + v
+    if "." in v:
+        return "~=" + v
+    return ">=" + v
 
 
-def nested_check(a: str, b: str, note: str) -> None:
-    """compare() says a <= b (or a > b); are the platform tag sets nested accordingly?"""
-    ea, eb = EnvSpec.from_spec(">=3.8", a), EnvSpec.from_spec(">=3.8", b)
-    r = ea.compare(eb)
-    ta, tb = set(ea.platform.compatible_tags), set(eb.platform.compatible_tags)
-    ok = (r == EC.LOWER_OR_EQUAL and ta <= tb) or (r == EC.HIGHER and ta >= tb)
-    if r != EC.INCOMPATIBLE and not ok:
-        lost = sorted(ta - tb) if r == EC.LOWER_OR_EQUAL else sorted(tb - ta)
-        # a concrete wheel that is lost by moving to the "higher" spec
-        lo, hi = (ea, eb) if r == EC.LOWER_OR_EQUAL else (eb, ea)
-        w = f"pkg-1.0-py3-none-{lost[0]}.whl"
-        report(
-            f"compare({a}, {b}) = {r.name} but the tag sets are not nested ({note})",
-            f"tags only on the lower side: {lost[:4]}{' ...' if len(lost) > 4 else ''}",
-            f"wheel {w}: lower spec -> {lo.wheel_compatibility(w)}, higher spec -> {hi.wheel_compatibility(w)}",
-            "expected: INCOMPATIBLE, or every tag of the lower spec accepted by the higher one",
-        )
+def rnd_alt() -> str:
+    return ",".join(rnd_clause() for _ in range(rnd.choice([1, 1, 2, 2, 3])))
 
 
-# ---------------------------------------------------------------------------------
-# 1. compare() vs tag nesting for OS classes that carry no (major, minor)
-# ---------------------------------------------------------------------------------
-nested_check("cygwin_x86_64", "android_x86_64", "two different Generic OS names, same arch")
-nested_check("freebsd_13_x86_64", "freebsd_14_x86_64", "FreeBSD releases: compare never looks at .release")
-nested_check("freebsd_14_x86_64", "freebsd_13_x86_64", "same pair, other direction: LOWER_OR_EQUAL both ways")
-nested_check("netbsd_9_aarch64", "netbsd_10_aarch64", "NetBSD releases")
-nested_check("haiku_1_x86_64", "haiku_2_x86_64", "Haiku releases")
+def rnd_spec_text() -> list[str]:
+    return [rnd_alt() for _ in range(rnd.choice([1, 1, 1, 2, 3]))]
 
-# ---------------------------------------------------------------------------------
-# 2. "newer release of the same OS and arch" across a libc MAJOR version:
-#    the generation loops only walk the minors of os.major, compare() orders (major, minor)
-# ---------------------------------------------------------------------------------
-nested_check("manylinux_2_17_x86_64", "manylinux_3_0_x86_64", "glibc 2.17 -> 3.0")
-nested_check("manylinux_2_28_aarch64", "manylinux_3_20_aarch64", "glibc 2.28 -> 3.20")
-nested_check("musllinux_1_2_x86_64", "musllinux_2_0_x86_64", "musl 1.2 -> 2.0")
-nested_check("musllinux_1_2_x86_64", "musllinux_2_3_x86_64", "musl 1.2 -> 2.3")
-# macOS 10.17+ on x86_64 (hypothetical releases): 11.0 only walks 10.16 .. 10.4
-nested_check("macos_10_17_x86_64", "macos_11_0_x86_64", "macOS 10.17 -> 11.0, x86_64")
 
-# ---------------------------------------------------------------------------------
-# 3. exceptions of the wrong type
-# ---------------------------------------------------------------------------------
-env = EnvSpec.from_spec(">=3.8", "linux", "cpython")
-for wheel in (
-    "pkg-1.0-py39rc1-none-any.whl",
-    "pkg-1.0-cp39a1-abi3-any.whl",
-    "pkg-1.0-py39dev0-none-any.whl",
-):
+def oracle_set(alts: list[str]) -> frozenset[Version]:
+    sets = [SpecifierSet(a) for a in alts]
+    return frozenset(v for v in GRID if any(s.contains(v, prereleases=True) for s in sets))
+
+
+def build_spec(alts: list[str]):
+    """Build the library object through a randomly chosen public route."""
+    route = rnd.randrange(4)
     try:
-        res = env.wheel_compatibility(wheel)
-    except Exception as e:  # noqa: BLE001
-        sibling = wheel.replace("rc1", "x").replace("a1", "x").replace("dev0", "x")
-        report(
-            f"wheel_compatibility({wheel!r}) raises {type(e).__name__}: {e}",
-            f"expected: None (not a tag this target understands), as for {sibling!r} -> {env.wheel_compatibility(sibling)!r};",
-            "the specifier built from the tag happens to parse (>=3.9rc1 ...), then int(minor) is taken outside the try block",
-        )
+        if route == 0:
+            return parse_version_specifier("||".join(alts))
+        if route == 1:
+            acc = None
+            for a in alts:
+                s = from_specifierset(SpecifierSet(a))
+                acc = s if acc is None else (acc | s)
+            return acc
+        if route == 2:
+            acc = None
+            for a in reversed(alts):
+                s = parse_version_specifier(a)
+                acc = s if acc is None else (s | acc)
+            return acc
+        # double inversion
+        s = parse_version_specifier("||".join(alts))
+        return ~(~s)
+    except Exception as e:  # pragma: no cover
+        print("EXC building", alts, type(e).__name__, e)
+        return None
 
-for text in ("win32", "foo", "manylinux_2_17_foo", "freebsd_13_2_x86_64", "illumos_5_11_x86_64"):
-    try:
-        Platform.parse(text)
-    except PlatformError:
+
+# ---------------------------------------------------------------- tag universe
+PY_TAGS = ["py2", "py3", "py27", "py30", "py36", "py39", "py310", "py312", "cp27", "cp3",
+           "cp36", "cp38", "cp39", "cp310", "cp311", "cp312", "cp313", "cp314", "pp39",
+           "pp310", "pt39", "cp4", "py4", "cp40"]
+
+
+def abis_for(py: str) -> list[str]:
+    out = ["none", "abi3"]
+    if py[:2] in ("cp", "pt"):
+        out += [py, py + "m", py + "t", py + "d", py + "0", py + "td"]
+    if py[:2] == "pp":
+        out += [f"pypy{py[2:]}_pp73", f"pypy{py[2:]}0_pp73"]
+    return out
+
+
+ARCHES = [Arch.X86_64, Arch.Aarch64, Arch.X86, Arch.Powerpc64Le, Arch.Armv7L, Arch.S390X,
+          Arch.RISCV64, Arch.LoongArch64, Arch.Armv6L, Arch.Powerpc64]
+
+
+def rnd_platform() -> Platform:
+    k = rnd.randrange(8)
+    if k == 0:
+        return Platform(Windows(), rnd.choice([Arch.X86_64, Arch.X86, Arch.Aarch64]))
+    if k in (1, 2):
+        return Platform(Manylinux(2, rnd.choice([0, 4, 5, 6, 11, 12, 13, 16, 17, 18, 28, 31, 39])),
+                        rnd.choice(ARCHES))
+    if k == 3:
+        return Platform(Musllinux(1, rnd.randint(0, 3)), rnd.choice(ARCHES))
+    if k == 4:
+        return Platform(Macos(10, rnd.randint(3, 16)), Arch.X86_64)
+    if k == 5:
+        return Platform(Macos(rnd.randint(11, 16), rnd.randint(0, 7)), Arch.X86_64)
+    if k == 6:
+        return Platform(Macos(rnd.randint(11, 16), rnd.randint(0, 7)), Arch.Aarch64)
+    return Platform.parse(rnd.choice(["linux", "windows", "macos", "alpine", "macos_arm64",
+                                      "macos_x86_64", "windows_amd64", "windows_x86",
+                                      "windows_arm64", "windows_i686", "macos_11_3_amd64",
+                                      "manylinux_2_28_arm64", "musllinux_1_1_i386"]))
+
+
+def plat_universe() -> list[str]:
+    tags = {"any"}
+    for a in ("x86_64", "aarch64", "x86", "i686", "ppc64le", "armv7l", "s390x", "riscv64",
+              "loongarch64", "armv6l", "ppc64", "arm64", "amd64"):
+        tags |= {f"linux_{a}", f"manylinux1_{a}", f"manylinux2010_{a}", f"manylinux2014_{a}"}
+        for m in (0, 4, 5, 6, 11, 12, 13, 16, 17, 18, 24, 28, 31, 39, 40):
+            tags.add(f"manylinux_2_{m}_{a}")
+        for m in range(0, 5):
+            tags.add(f"musllinux_1_{m}_{a}")
+    for f in ("x86_64", "arm64", "intel", "fat64", "fat32", "universal2", "universal", "i386"):
+        for m in range(3, 18):
+            tags.add(f"macosx_10_{m}_{f}")
+        for M in range(11, 18):
+            for m in (0, 1, 3):
+                tags.add(f"macosx_{M}_{m}_{f}")
+    tags |= {"win32", "win_amd64", "win_arm64", "win_ia64"}
+    return sorted(tags)
+
+
+PLAT_UNIVERSE = plat_universe()
+IMPLS = [None, Implementation("cpython"), Implementation("cpython", True),
+         Implementation("pypy"), Implementation("pyston"),
+         Implementation.parse("cpython", 1)]  # truthy non-bool flag
+
+violations: list[str] = []
+known: list[str] = []
+counts = {"python-widening": 0, "platform-widening": 0, "compare-laws": 0,
+          "compare-nesting": 0, "roundtrip": 0, "exotic": 0}
+
+
+def report(kind: str, msg: str, known_family: str | None = None) -> None:
+    line = f"[{kind}] {msg}"
+    if known_family:
+        known.append(line + f"   ({known_family})")
+    else:
+        violations.append(line)
+        print("VIOLATION", line)
+
+
+# ------------------------------------------------- 1. widening requires_python
+def check_python_widening() -> None:
+    a_text, b_text = rnd_spec_text(), rnd_spec_text()
+    if rnd.random() < 0.5:
+        b_text = b_text + a_text  # make inclusion frequent
+    sa, sb = oracle_set(a_text), oracle_set(b_text)
+    if not sa <= sb:
+        return
+    ra, rb = build_spec(a_text), build_spec(b_text)
+    if ra is None or rb is None or ra.is_empty() or rb.is_empty():
+        return
+    plat = rnd.choice([None, rnd_platform()])
+    impl = rnd.choice(IMPLS)
+    A, B = EnvSpec(ra, plat, impl), EnvSpec(rb, plat, impl)
+    for _ in range(12):
+        py = rnd.sample(PY_TAGS, rnd.choice([1, 1, 2]))
+        abi = rnd.sample(sorted({x for p in py for x in abis_for(p)}), rnd.choice([1, 1, 2]))
+        pl = rnd.sample(PLAT_UNIVERSE, 2) + ["any"] + (plat.compatible_tags[:1] if plat else [])
+        pl = rnd.sample(pl, rnd.choice([1, 2]))
+        counts["python-widening"] += 1
+        ca, cb = A.compatibility(py, abi, pl), B.compatibility(py, abi, pl)
+        if ca is not None and cb is None:
+            # is the witness inside the grid?  (otherwise family 18 / 6 / 10)
+            msg = f"A={A} B={B} wheel={py}-{abi}-{pl}: A->{ca} B->{cb}"
+            if not sa:
+                report("python-widening", msg, "known family 18: A admits no final release of the grid")
+            else:
+                report("python-widening", msg)
+
+
+# ------------------------------------------------- 2. widening platform
+def newer_release(p: Platform) -> Platform | None:
+    o = p.os
+    if isinstance(o, Manylinux):
+        return Platform(Manylinux(2, o.minor + rnd.randint(0, 12)), p.arch)
+    if isinstance(o, Musllinux):
+        return Platform(Musllinux(1, o.minor + rnd.randint(0, 3)), p.arch)
+    if isinstance(o, Macos):
+        if o.major == 10 and rnd.random() < 0.5:
+            return Platform(Macos(10, rnd.randint(o.minor, 16)), p.arch)
+        return Platform(Macos(rnd.randint(max(o.major, 11), 17), rnd.randint(0, 6)), p.arch)
+    return None
+
+
+def check_platform_widening() -> None:
+    pa = rnd_platform()
+    pb = newer_release(pa)
+    if pb is None:
+        return
+    counts["platform-widening"] += 1
+    ta, tb = pa.compatible_tags, pb.compatible_tags
+    if not set(ta) <= set(tb):
+        report("platform-widening", f"{pa} -> {pb}: lost {sorted(set(ta) - set(tb))[:4]}")
+    # relative order (priority) of the shared tags is preserved as well
+    shared = [t for t in tb if t in set(ta)]
+    if shared != ta:
+        report("platform-widening", f"{pa} -> {pb}: order of shared tags differs")
+    rp = parse_version_specifier(rnd.choice([">=3.8", "==3.11.*", "<3.12,>=3.9"]))
+    impl = rnd.choice(IMPLS)
+    A, B = EnvSpec(rp, pa, impl), EnvSpec(rp, pb, impl)
+    for t in rnd.sample(PLAT_UNIVERSE, 25) + ta[:3]:
+        for py, abi in (("py3", "none"), ("cp311", "cp311"), ("cp39", "abi3")):
+            ca, cb = A.compatibility([py], [abi], [t]), B.compatibility([py], [abi], [t])
+            if ca is not None and cb is None:
+                report("platform-widening", f"{A} -> {B}: wheel {py}-{abi}-{t} lost")
+
+
+# ------------------------------------------------- 3. compare laws + nesting
+def rnd_env() -> EnvSpec | None:
+    rp = build_spec(rnd_spec_text())
+    if rp is None or rp.is_empty():
+        return None
+    if rnd.random() < 0.05:
+        rp = AnySpecifier()
+    return EnvSpec(rp, rnd.choice([None, rnd_platform(), rnd_platform()]), rnd.choice(IMPLS))
+
+
+POOL: list[EnvSpec] = []
+
+
+def check_compare() -> None:
+    a, b = rnd_env(), rnd_env()
+    if a is None or b is None:
+        return
+    if POOL and rnd.random() < 0.5:
+        # vary one field only: hits the interesting branches far more often
+        base = rnd.choice(POOL)
+        b = EnvSpec(rnd.choice([base.requires_python, b.requires_python]),
+                    rnd.choice([base.platform, b.platform, newer_release(base.platform)
+                                if base.platform else None]),
+                    rnd.choice([base.implementation, b.implementation]))
+        a = base
+    POOL.append(a)
+    del POOL[:-200]
+    counts["compare-laws"] += 1
+    if a.compare(a) != EC.LOWER_OR_EQUAL:
+        report("compare", f"not reflexive: {a}")
+    a2 = EnvSpec.from_spec(**a.as_dict()) if not a.requires_python.is_any() or True else a
+    counts["roundtrip"] += 1
+    if a2 != a or hash(a2) != hash(a) or a2.compare(a) != EC.LOWER_OR_EQUAL or a.compare(a2) != EC.LOWER_OR_EQUAL:
+        report("roundtrip", f"from_spec(**as_dict()) differs: {a!r} -> {a.as_dict()} -> {a2!r}")
+    ab, ba = a.compare(b), b.compare(a)
+    if (ab == EC.INCOMPATIBLE) != (ba == EC.INCOMPATIBLE):
+        report("compare", f"INCOMPATIBLE not symmetric: {a} vs {b}: {ab!r} / {ba!r}")
+    if ab == EC.HIGHER and ba == EC.HIGHER:
+        report("compare", f"HIGHER both ways: {a} vs {b}")
+    if a.platform is not None and b.platform is not None and ab != EC.INCOMPATIBLE:
+        counts["compare-nesting"] += 1
+        ta, tb = set(a.platform.compatible_tags), set(b.platform.compatible_tags)
+        if ab == EC.LOWER_OR_EQUAL and not ta <= tb:
+            report("compare-nesting", f"{a} <= {b} but tags not nested: {sorted(ta - tb)[:3]}")
+        if ab == EC.HIGHER and not tb <= ta:
+            report("compare-nesting", f"{a} > {b} but tags not nested: {sorted(tb - ta)[:3]}")
+    # python overlap, judged by the oracle: INCOMPATIBLE on python grounds only if no shared version
+    if ab != EC.INCOMPATIBLE:
         pass
-    except Exception as e:  # noqa: BLE001
-        report(
-            f"Platform.parse({text!r}) raises {type(e).__name__}: {e}",
-            "expected: PlatformError (the module's own error type), as for Platform.parse('linux_')",
-        )
 
-# ---------------------------------------------------------------------------------
-# 4. areas swept without a finding (counts)
-# ---------------------------------------------------------------------------------
-def sweep() -> tuple[int, int]:
-    names = []
-    for arch in ("x86_64", "aarch64", "x86", "armv7l", "ppc64le", "s390x", "riscv64", "arm64"):
-        names += [f"manylinux_2_{m}_{arch}" for m in (0, 4, 5, 11, 12, 13, 16, 17, 18, 28, 40)]
-        names += [f"musllinux_1_{m}_{arch}" for m in (0, 1, 2, 3, 5)]
-        names += [f"windows_{arch}"]
-    for arch in ("x86_64", "arm64"):
-        names += [f"macos_{M}_{m}_{arch}" for M in (11, 12, 14, 15, 26) for m in (0, 3, 7)]
-    names += [f"macos_10_{m}_x86_64" for m in (3, 4, 9, 15, 16)]
-    names += ["linux", "windows", "macos", "alpine", "macos_arm64", "macos_x86_64"]
-    plats = {}
-    for n in names:
+
+# ------------------------------------------------- 4. hand-written exotic cases
+def exotic() -> None:
+    def chk(cond: bool, msg: str, fam: str | None = None) -> None:
+        counts["exotic"] += 1
+        if not cond:
+            report("exotic", msg, fam)
+
+    # equal-but-differently-spelled specs / specs reached through different routes
+    pairs = [(">=3.9", ">=3.9.0"), ("==3.9.*", ">=3.9,<3.10"), ("~=3.9", ">=3.9,<4"),
+             ("~=3.9.0", "==3.9.*"), ("", ">=0"), ("!=3.9.*", "<3.9||>=3.10"),
+             (">=3.9,!=3.9.*", ">=3.10"), ("<3.9||>=3.9", ""), ("==3.*,>=3.9", "~=3.9")]
+    wheels = [(p, a, t) for p in PY_TAGS for a in abis_for(p) for t in ("any", "linux_x86_64")]
+    for x, y in pairs:
+        for plat in (None, Platform.parse("linux")):
+            for impl in IMPLS:
+                ex = EnvSpec.from_spec(x, str(plat) if plat else None,
+                                       impl.name if impl else None,
+                                       impl.gil_disabled if impl else False)
+                ey = EnvSpec(parse_version_specifier(y), plat, impl)
+                for w in wheels:
+                    cx = ex.compatibility([w[0]], [w[1]], [w[2]])
+                    cy = ey.compatibility([w[0]], [w[1]], [w[2]])
+                    chk((cx is None) == (cy is None),
+                        f"same set, different verdict: {x!r} vs {y!r} wheel {w}: {cx} / {cy}")
+                chk(ex.compare(ey) != EC.INCOMPATIBLE and ey.compare(ex) != EC.INCOMPATIBLE,
+                    f"same set judged incompatible: {x!r} vs {y!r}")
+
+    # objects built directly: AnySpecifier, unbounded RangeSpecifier, Union from `~`
+    any_envs = [EnvSpec(AnySpecifier()), EnvSpec(RangeSpecifier()), EnvSpec.from_spec("")]
+    for e1, e2 in itertools.product(any_envs, repeat=2):
+        chk(e1.compare(e2) == EC.LOWER_OR_EQUAL, f"any-spec compare {e1!r} {e2!r}")
+        chk(e1 == e2 and hash(e1) == hash(e2), f"any-spec eq/hash {e1!r} {e2!r}")
+    inv = ~parse_version_specifier("==3.9.*")
+    chk(isinstance(inv, UnionSpecifier), "inversion type")
+    for w in wheels:
+        c1 = EnvSpec(inv).compatibility([w[0]], [w[1]], [w[2]])
+        c2 = EnvSpec.from_spec("!=3.9.*").compatibility([w[0]], [w[1]], [w[2]])
+        c3 = EnvSpec(AnySpecifier()).compatibility([w[0]], [w[1]], [w[2]])
+        chk(c1 == c2, f"~(==3.9.*) vs !=3.9.* on {w}: {c1} {c2}")
+        chk(not (c1 is not None and c3 is None), f"Any loses wheel {w}")
+
+    # wheel file names: build tags, compressed tag sets, upper-case *file names*
+    e_old = EnvSpec.from_spec(">=3.9,<3.11", "manylinux_2_17_x86_64", "cpython")
+    e_new = EnvSpec.from_spec(">=3.8", "manylinux_2_28_x86_64", "cpython")
+    for fn in ["a-1-cp39-cp39-manylinux2014_x86_64.whl", "a-1-1b-cp39-cp39-manylinux_2_17_x86_64.whl",
+               "a-1-cp39.cp310-abi3.cp39-manylinux1_x86_64.manylinux_2_5_x86_64.whl",
+               "A-1-CP39-CP39-MANYLINUX2014_X86_64.whl", "a-1-py2.py3-none-any.whl",
+               "a-1-cp310-abi3-linux_x86_64.whl", "a-1-cp39-none-any.whl"]:
+        c1, c2 = e_old.wheel_compatibility(fn), e_new.wheel_compatibility(fn)
+        chk(c1 is not None, f"expected {fn} to fit {e_old}")
+        chk(not (c1 is not None and c2 is None), f"widening both fields loses {fn}")
+
+    # cached compatible_tags must not be affected by earlier compatibility() calls
+    p = Platform.parse("manylinux_2_20_x86_64")
+    before = list(p.compatible_tags)
+    e = EnvSpec.from_spec(">=3.9", "manylinux_2_20_x86_64")
+    for t in PLAT_UNIVERSE:
+        e.compatibility(["py3"], ["none"], [t])
+    chk(list(e.platform.compatible_tags) == before and "any" not in e.platform.compatible_tags,
+        "compatibility() mutated the cached tag list")
+
+    # EnvSpec.current(): reflexive, equal to its own round trip, accepts a pure wheel and
+    # is below the same interpreter on a newer OS release
+    cur = EnvSpec.current()
+    chk(cur.compare(cur) == EC.LOWER_OR_EQUAL, "current() not reflexive")
+    chk(cur.wheel_compatibility("a-1-py3-none-any.whl") is not None, "current() rejects py3-none-any")
+    nb = newer_release(cur.platform)
+    if nb is not None:
+        newer = EnvSpec(cur.requires_python, nb, cur.implementation)
+        chk(cur.compare(newer) == EC.LOWER_OR_EQUAL, "current() vs newer release")
+        chk(set(cur.platform.compatible_tags) <= set(nb.compatible_tags), "current() tags vs newer")
+
+    # platforms that parse() accepts and compare() orders but that have no tag list
+    for name in ("macos_10_9_i386", "macos_12_0_ppc64", "windows_ppc64le"):
+        e = EnvSpec.from_spec(">=3.9", name)
         try:
-            p = Platform.parse(n)
-            p.compatible_tags
-            plats[n] = p
-        except PlatformError:
-            pass
-    pairs = bad = 0
-    for (na, a), (nb, b) in itertools.product(plats.items(), repeat=2):
-        ea, eb = EnvSpec.from_spec(">=3.8", na), EnvSpec.from_spec(">=3.8", nb)
-        r, r2 = ea.compare(eb), eb.compare(ea)
-        ta, tb = set(a.compatible_tags), set(b.compatible_tags)
-        pairs += 1
-        if (r == EC.INCOMPATIBLE) != (r2 == EC.INCOMPATIBLE) or (r == r2 == EC.HIGHER):
-            bad += 1
-        if r == EC.LOWER_OR_EQUAL and not ta <= tb or r == EC.HIGHER and not ta >= tb:
-            bad += 1
-        if na == nb and r != EC.LOWER_OR_EQUAL:
-            bad += 1
-    return pairs, bad
+            c = e.wheel_compatibility("a-1-py3-none-any.whl")
+            chk(c is not None, f"{name}: pure wheel rejected")
+        except Exception as exc:
+            chk(False, f"{name}: Platform.parse accepts it, compare(self) = "
+                       f"{e.compare(EnvSpec.from_spec('>=3.8', name))!r}, but "
+                       f"wheel_compatibility('a-1-py3-none-any.whl') raises "
+                       f"{type(exc).__name__}: {exc}",
+                "borderline, not counted: unsupported OS/arch pair, outside the property's platform grid")
 
 
-def python_sweep(n: int = 400) -> tuple[int, int]:
-    """requires_python widening (A = B plus one more clause) over a wheel universe, and
-    emptiness against packaging on a universe of final releases."""
-    import random
-
-    from packaging.specifiers import SpecifierSet
-    from packaging.version import Version
-
-    rnd = random.Random(16)
-    universe = [Version(f"{X}.{Y}{z}") for X in (2, 3, 4) for Y in range(16) for z in ("", ".0", ".1", ".2", ".5", ".1.1", ".0.0.1")]
-    universe += [Version("1!3.9"), Version("1!3.9.1")]
-
-    def version() -> str:
-        s = f"{rnd.choice([2, 3, 3, 3, 3, 4])}.{rnd.randrange(15)}"
-        k = rnd.random()
-        if k < 0.3:
-            s += f".{rnd.choice([0, 0, 1, 2, 5])}"
-        elif k < 0.4:
-            s += f".{rnd.choice([0, 1])}.{rnd.choice([0, 1])}"
-        return (rnd.choice(["0!", "1!"]) if rnd.random() < 0.04 else "") + s
-
-    def clause() -> str:
-        op = rnd.choice([">=", ">=", ">", "<", "<", "<=", "==", "!=", "~=", "==*", "!=*"])
-        return op[:-1] + version() + ".*" if op.endswith("*") else op + version()
-
-    pytags = ["py3", "py2", "py30", "py38", "py310", "cp27", "cp3", "cp38", "cp39", "cp310", "cp312", "pp39", "pt39", "cp4", "py41"]
-    cases = bad = 0
-    for _ in range(n):
-        b = ",".join(clause() for _ in range(rnd.randint(1, 2)))
-        if rnd.random() < 0.25:
-            b += "||" + clause()
-        a = b.split("||")[0] + "," + clause()
-        impl = rnd.choice([None, "cpython", "pypy"])
-        try:
-            A, B = EnvSpec.from_spec(a, None, impl), EnvSpec.from_spec(b, None, impl)
-        except ValueError:
-            continue
-        admitted = [v for v in universe if any(SpecifierSet(p).contains(v, prereleases=True) for p in b.split("||"))]
-        for pt in pytags:
-            for abi in ("none", "abi3", pt, pt + "m", pt + "t"):
-                cases += 1
-                ra, rb = A._evaluate_python(pt, abi), B._evaluate_python(pt, abi)
-                if ra is not None and rb is None:
-                    bad += 1
-                    print("   python widening loses a wheel:", a, "->", b, pt, abi)
-                if abi == "none" and pt[2:].isdigit() and rb is None and (impl is None or pt[:2] in ("py", "cp" if impl == "cpython" else "pp")):
-                    major, minor = int(pt[2]), (int(pt[3:]) if pt[3:] else None)
-                    hit = [
-                        v for v in admitted if v.epoch == 0 and v.release[0] == major
-                        and (minor is None or (v.release >= (major, minor) if pt[:2] == "py" else v.release[:2] == (major, minor)))
-                    ]
-                    if hit:
-                        bad += 1
-                        print("   rejected although", hit[0], "is admitted:", b, pt)
-    return cases, bad
+def main() -> None:
+    exotic()
+    for i in range(N):
+        check_python_widening()
+        check_platform_widening()
+        check_compare()
+    print()
+    for line in known[:10]:
+        print("known/borderline:", line)
+    if len(known) > 10:
+        print(f"... and {len(known) - 10} more known/borderline lines")
+    print("cases:", counts)
+    print(f"NEW violations: {len(violations)}")
 
 
-pairs, bad = sweep()
-pcases, pbad = python_sweep()
-print(f"requires_python sweep (wildcards of several depths, ~=, !=, epochs, || unions, trailing zeros): {pcases} wheel evaluations, {pbad} violations")
-print(
-    f"sweep over real-world platform families (glibc 2.x, musl 1.x, macOS 10.4-10.16/11+, windows): "
-    f"{pairs} pairs, {bad} violations"
-)
-print(f"{found} new violations printed above")
+if __name__ == "__main__":
+    main()
